@@ -259,6 +259,11 @@ func genPattern(r *Rand, id int, shared []string) genRoute {
 			k = varKinds[0]
 		}
 		name := fmt.Sprintf("v%d%c", varN, 'a'+byte(r.Intn(3)))
+		if r.Chance(1, 10) { // a name that merely STARTS like a global variable is an ordinary name
+			if nm := r.Pick([]string{"num1", "all2", "any3", "num22", "alls", "anyone"}); !usedNames[nm] {
+				name = nm
+			}
+		}
 		if r.Chance(1, 8) && k.spec != "%s" { // a custom regex under the name of a global variable: the custom regex rules
 			gn := r.Pick([]string{"all", "any", "num"})
 			if !usedNames[gn] {
